@@ -1,1 +1,29 @@
-From PM Require Import Model.Step.
+(* C03 — a step's position map describes exactly what the step did.
+   Theorem for replace steps (the step type every deletion, insertion and paste compiles to), for every
+   schema, valid document, range and slice whose open sides have the claimed depth: with
+   m = the step's map, T / T' the token sequences of the old / new document (compared up to Python's
+   True == 1 on attribute values, [tnorm]),
+     - the size changes by (new - old) of the map's single range,
+     - every old token wholly before the range is found at the mapped position (which is the same position),
+     - every old token wholly after the range is found at the mapped position.
+   Token number p lies between positions p and p+1; "mapped position" is [StepMap.map] with assoc = 1, whose
+   meaning is C08's theorems.  Replace-around, mark, attribute and node-mark steps, and the steps of every
+   high-level operation, are judged by the same statement evaluated per case in Coq (Corr.C03). *)
+From Coq Require Import ZArith List Arith.
+From PM Require Import Model.Data Model.Mark Model.Tree Model.StepMap Model.Step Spec.Tokens
+  Proofs.TokenBasics Proofs.ReplaceTokens Proofs.SliceShape Proofs.StepFaithful.
+Import ListNotations.
+Local Open Scope nat_scope.
+
+Theorem C03_replace_step_map_faithful : forall s (from to : nat) sl structure doc d',
+  check s doc = true ->
+  Shape s (sl_content sl) (sl_open_start sl) (sl_open_end sl) -> from <= to ->
+  apply s (SReplace from to sl structure) doc = ROk d' ->
+  let m := get_map s (SReplace from to sl structure) in
+  let T := List.map tnorm (ftoks s (node_content doc)) in
+  let T' := List.map tnorm (ftoks s (node_content d')) in
+  (Z.of_nat (length T') = Z.of_nat (length T) + (slice_size s sl - (Z.of_nat to - Z.of_nat from)))%Z /\
+  (forall p, p < from -> nth_error T' (Z.to_nat (map m (Z.of_nat p) 1)) = nth_error T p) /\
+  (forall p, to <= p -> nth_error T' (Z.to_nat (map m (Z.of_nat p) 1)) = nth_error T p).
+Proof. exact replace_step_map_faithful. Qed.
+Print Assumptions C03_replace_step_map_faithful.
